@@ -11,14 +11,17 @@ SLACK_MS = 250      # scheduling tolerance of the trace specification (Pool_Trac
 
 RULE = ("S->C (a): TLC evaluates PoolSelect!Choices for every configuration of a grid (N<=4 connections x alive x seqno in "
         "{0,1,2,3,2^32-1} x rtt 0..2); each vector is replayed into the real updateBest for both strategies and every previous "
-        "best (0..N), observed through BestMasterchainClient. S->C (b): behaviours of Pool (TLC -simulate of the protocol as "
-        "implemented and of the repaired protocol, plus every shortest path to a state where NeverStuck / ByDeadline fail, BFS "
-        "with VIEW) are forced step by step on the real subscribe/notifySubscribers/unsubscribe/SetMasterHead/"
-        "WaitMasterchainSeqno/updateBest through scheduler gates in the hooks, comparing goroutine positions, channel lengths, "
-        "wait list, best and heads after every step; a verdict comes only from the real code (goroutines that never return, a "
-        "caller still in its select after deadline+slack), reproduced on a second run. MC: exhaustive TLC of small instances "
-        "(spec/mc). C->S: free-running executions recorded through the hooks are accepted only if Pool_Trace finds them to be "
-        "behaviours of Pool. distinct = select vectors + scripts followed + trace segments accepted.")
+        "best (0..N), observed through BestMasterchainClient. S->C (b): behaviours of Pool are forced step by step on the real "
+        "subscribe/notifySubscribers/unsubscribe/SetMasterHead/WaitMasterchainSeqno/updateBest through scheduler gates in the "
+        "hooks, comparing goroutine positions, channel lengths, wait list, best and heads after every step: TLC -simulate of the "
+        "protocol the code implements (FixNotify = FixTimer = FixSetHead = TRUE; these scripts must be followable) and, as leads, "
+        "of the protocol before the repairs, plus every shortest path (BFS with VIEW) to a state of the old protocol in which "
+        "NeverStuck / ByDeadline fail - on the repaired code those must end without a hang or a late return. A verdict comes "
+        "only from the real code (goroutines that never return, a caller still in its select after deadline+slack, a timeout "
+        "before the timeout elapsed), reproduced on a second run. MC: exhaustive TLC of small instances (spec/mc): all "
+        "properties for the repaired protocol, the safety part for the old one. C->S: free-running executions recorded through "
+        "the hooks are accepted only if Pool_Trace (repaired protocol) finds them to be behaviours of Pool. "
+        "distinct = select vectors + scripts followed + trace segments accepted.")
 
 
 # ------------------------------------------------------------------------------------------------ helpers
@@ -158,7 +161,7 @@ def lead_margin(js):
     return m
 
 
-def scripts_from(res, tag, src, nc, nw, strategy, limit=None, per_class=None):
+def scripts_from(res, tag, src, nc, nw, strategy, limit=None, per_class=None, fsh=False):
     out, seen, cnt = [], set(), {}
     tuples = res.tuples(tag)
     if tag == "CEX":
@@ -173,7 +176,7 @@ def scripts_from(res, tag, src, nc, nw, strategy, limit=None, per_class=None):
             continue
         cnt[cls] = cnt.get(cls, 0) + 1
         steps = json.loads(js)
-        out.append({"id": "%s-%d" % (src, len(out) + 1), "src": src, "cls": cls, "nc": nc, "nw": nw, "strategy": strategy,
+        out.append({"id": "%s-%d" % (src, len(out) + 1), "src": src, "cls": cls, "nc": nc, "nw": nw, "strategy": strategy, "fsh": fsh,
                     "rtt": [0 if k == nc else 1 for k in range(1, nc + 1)], "steps": steps})
         if limit and len(out) >= limit:
             break
@@ -182,24 +185,28 @@ def scripts_from(res, tag, src, nc, nw, strategy, limit=None, per_class=None):
 
 def gen_scripts(ck):
     jobs = []
-    # leads: shortest paths to the states where the properties of the protocol AS IMPLEMENTED fail
-    jobs.append(("cex", "gen/Pool_Gen_cex.cfg", [], [], 1, 1, "first-working"))
-    jobs.append(("cexsh", "gen/Pool_Gen_cex_sethead.cfg", [], [], 1, 1, "first-working"))
+    # leads: shortest paths to the states in which the properties fail for the protocol as it was before the repairs
+    # (blocking notify, timer re-armed, publish under the connection lock). The code now implements the repaired
+    # protocol, so these scripts must NOT lead the real code to a hang / a late return; if one does, that is a violation.
+    jobs.append(("cex", "gen/Pool_Gen_cex.cfg", [], [], 1, 1, "first-working", False))
+    jobs.append(("cexsh", "gen/Pool_Gen_cex_sethead.cfg", [], [], 1, 1, "first-working", False))
     nsim = 300 if ck.thorough else 24
-    for variant, val in (("asis", "FALSE"), ("fixed", "TRUE")):
+    # behaviours of the protocol the code implements (all three repairs: the scripts must be followable) and of the
+    # old protocol (more leads; followable only where the two agree)
+    for variant, val in (("repaired", "TRUE"), ("old", "FALSE")):
         for st in ("first-working", "best-ping"):
             subs = [("FixNotify = FALSE", "FixNotify = " + val), ("FixTimer = FALSE", "FixTimer = " + val),
-                    ('Strategy = "first-working"', 'Strategy = "%s"' % st)]
+                    ("FixSetHead = FALSE", "FixSetHead = " + val), ('Strategy = "first-working"', 'Strategy = "%s"' % st)]
             jobs.append(("%s-%s" % (variant, st[:2]), "gen/Pool_Gen_sim.cfg", subs,
-                         ["-simulate", "num=%d" % nsim, "-depth", "65", "-seed", str(ck.seed * 10 + len(jobs))], 2, 3, st))
+                         ["-simulate", "num=%d" % nsim, "-depth", "65", "-seed", str(ck.seed * 10 + len(jobs))], 2, 3, st, val == "TRUE"))
 
     def one(j):
-        src, cfg, subs, args, nc, nw, st = j
+        src, cfg, subs, args, nc, nw, st, fsh = j
         c = tmp_cfg(ck, cfg, "gen_%s.cfg" % src, subs) if subs else cfg
         res = ck.tlc_or_infra("Pool_Gen", c, workers=1 if args else 4, args=args, timeout=900, name="gen_" + src, heap_gb=2)
         if args:
-            return scripts_from(res, "VEC", src, nc, nw, st, limit=nsim)
-        return scripts_from(res, "CEX", src, nc, nw, st, per_class=(40 if ck.thorough else 5))
+            return scripts_from(res, "VEC", src, nc, nw, st, limit=nsim, fsh=fsh)
+        return scripts_from(res, "CEX", src, nc, nw, st, per_class=(40 if ck.thorough else 5), fsh=fsh)
     scripts = []
     for s in vlib.parallel(one, jobs, n=6):
         scripts.extend(s)
@@ -209,7 +216,7 @@ def gen_scripts(ck):
             classes[s["cls"]] = classes.get(s["cls"], 0) + 1
     ck.extra["leads_from_TLC"] = classes
     if not classes:
-        ck.notes.append("TLC found no state of the as-implemented protocol in which NeverStuck/ByDeadline fail")
+        ck.notes.append("TLC found no state of the pre-repair protocol in which NeverStuck/ByDeadline fail: no leads")
     return scripts
 
 
@@ -263,12 +270,12 @@ def phase_gate(ck):
     suspects = {}
     for sid, r in res.items():
         v = sid.split("-")[0]
-        st = stats.setdefault(v, {"scripts": 0, "followed": 0, "diverged": 0, "maporder": 0, "overrun": 0})
+        st = stats.setdefault(v, {"scripts": 0, "followed": 0, "diverged": 0, "maporder": 0, "overrun": 0, "timerfirst": 0})
         st["scripts"] += 1
         d = r.get("divergence")
         if d is None:
             st["followed"] += 1
-        elif d["kind"] in ("maporder", "overrun"):
+        elif d["kind"] in ("maporder", "overrun", "timerfirst"):
             st[d["kind"]] += 1
         else:
             st["diverged"] += 1
@@ -277,17 +284,18 @@ def phase_gate(ck):
     ck.extra["gate_replay"] = stats
     ck.evaluations += sum(r["followed"] for r in res.values())
     ck.traces_ok += sum(1 for r in res.values() if r["status"] == "followed")
-    # the code implements one of the two protocol variants: its scripts must be followable, or S->C says nothing
+    # the code implements one of the two protocol variants (the repaired one, since ff488b7..ef82c42): the scripts of
+    # that variant must be followable, or S->C says nothing
     rates = {}
-    for v in ("asis", "fixed"):
+    for v in ("repaired", "old"):
         st = stats.get(v)
         if st:
-            den = st["scripts"] - st["maporder"] - st["overrun"]
+            den = st["scripts"] - st["maporder"] - st["overrun"] - st["timerfirst"]
             rates[v] = st["followed"] / den if den else 0.0
     ck.extra["gate_follow_rate"] = {k: round(x, 3) for k, x in rates.items()}
     if not rates or max(rates.values()) < 0.9:
         ex = next((r["divergence"] for r in res.values() if r.get("divergence") and r["divergence"]["kind"] in ("position", "state")), None)
-        raise Infra("neither protocol variant of Pool is followed by the code (rates %s); e.g. %s" % (rates, ex))
+        raise Infra("neither the repaired nor the old protocol of Pool is followed by the code (rates %s); e.g. %s" % (rates, ex))
     sample = next((r for r in res.values() if r["status"] == "followed" and not observations(r)), None)
     if sample:
         ck.sample({"direction": "S->C gates", "script": sample["id"], "steps": [{k: v for k, v in s.items() if k != "o"} for s in byid[sample["id"]]["steps"][:12]]})
@@ -389,7 +397,8 @@ def validate_body(ck, body, tag, deferred=None):
     def val(i):
         p = os.path.join(ck.work, "trace_%s_%02d.ndjson" % (tag, i))
         vlib.write_ndjson(p, shards[i] + [{"k": "End", "events": len(shards[i])}])
-        return ck.validate_segments("Pool_Trace", "trace/Pool_Trace.cfg", p, timeout=1500, name="trace_%s_%02d" % (tag, i), heap_gb=2)
+        return ck.validate_segments("Pool_Trace", "trace/Pool_Trace.cfg", p, timeout=1500 if ck.thorough else 240,
+                                    name="trace_%s_%02d" % (tag, i), heap_gb=2)   # over budget = exit 2, never a verdict
     nrej = 0
     lateness = []
     for res, rejected in vlib.parallel(val, range(nsh), n=8):
@@ -503,8 +512,11 @@ def run(ck):
     need_hooks()
     ck.assumptions += ["TLC 2.x + CommunityModules Json", "hooks in liteapi/pool under build tag verif (add-only; vhook is empty without the tag)",
                        "gate replays: ConnPool.Run's select is mirrored by a commanded loop (same two bodies on one goroutine); the real Run "
-                       "is exercised by the free-running recorder", "model clock unit = %d ms; deadline slack %d ms (gates) / %d ms (traces)" % (U_MS, U_MS // 2, SLACK_MS),
-                       "Go's map iteration order is not controllable: scripts whose notify order differs are retried 6 times, then skipped",
+                       "is exercised by the free-running recorder", "model clock unit = %d ms; deadline slack %d ms (gates) / %d ms (traces)" % (U_MS, U_MS, SLACK_MS),
+                       "Go's map iteration order is not controllable: adjacent sends of a notify round are taken in the real order, other scripts "
+                       "whose notify order differs are retried 6 times, then skipped",
+                       "the code is expected to implement the repaired protocol (commits ff488b7, 5bb5d7a, ef82c42); the old protocol's "
+                       "counterexamples are replayed as leads: reaching their hang / late return on the real code is a violation",
                        "exhaustive instances: 1 connection x 2 callers, 2 x 1 (2 x 2 with a 2-slot update channel), heads <= 3, clock <= 4"]
     out = {}
 
